@@ -238,7 +238,12 @@ class Ctx:
                 self.axioms += [v >= enc[0], v <= enc[1]]
                 self.stubs.add('constants f(c) of transcendental functions enclosed to 1e-40 with mpmath (60 digits)')
         if name == 'sqrt':
-            self.axioms += [v >= 0, v * v == a]
+            if getattr(self, 'sqrt_guarded', False):
+                # (harness option) do not assume the argument non-negative: where it is negative the variable is unconstrained and
+                # the poison tracker flags the value
+                self.axioms += [z3.Implies(a >= 0, z3.And(v >= 0, v * v == a))]
+            else:
+                self.axioms += [v >= 0, v * v == a]
         elif name == 'cbrt':
             self.axioms += [v * v * v == a]
         return v
@@ -1547,11 +1552,13 @@ def _inv_ex(m, func, args, kwargs):
     return out
 
 
-def cholesky_terms(ctx, M, n):
-    """lower Cholesky factor by the algorithm (sqrt abstraction)"""
+def cholesky_terms(ctx, M, n, pivots=None):
+    """lower Cholesky factor by the algorithm (sqrt abstraction); pivots: list receiving the arguments of the square roots"""
     L = [[z3.RealVal(0)] * n for _ in range(n)]
     for j in range(n):
         s = M[j * n + j] - z3.Sum([L[j][k] * L[j][k] for k in range(j)]) if j else M[j * n + j]
+        if pivots is not None:
+            pivots.append(s)
         L[j][j] = ctx.tfun('sqrt', s)
         for i in range(j + 1, n):
             s = M[i * n + j] - z3.Sum([L[i][k] * L[j][k] for k in range(j)]) if j else M[i * n + j]
@@ -1683,8 +1690,8 @@ def _cholesky_ex_stub(m, func, args, kwargs):
     A = args[0]
     upper = kwargs.get('upper', False)
     n = A.shape[-1]
-    if n > 3:
-        raise Unsupported('cholesky_ex stub n>3')
+    if n > 4:
+        raise Unsupported('cholesky_ex stub n>4')
     out = func(*args, **kwargs)
     L_t, info_t = out[0], out[1]
     ft = [to_real(t) for t in m.full_terms(A)]
@@ -1693,6 +1700,18 @@ def _cholesky_ex_stub(m, func, args, kwargs):
     Lterms, infos = [], []
     for b in range(nb):
         M = ft[b * n * n:(b + 1) * n * n]
+        if getattr(ctx, 'chol_algorithmic', False):
+            # (harness option) the factor by the Cholesky-Banachiewicz recurrences over the reals instead of fresh variables tied by
+            # L L^T = A: the same function on positive definite input (uniqueness of the factor), info==0 <=> every pivot positive
+            tri_ = lambda i, j: (i, j) if ((j <= i) != bool(upper)) or i == j else (j, i)
+            Ms_ = [M[tri_(i, j)[0] * n + tri_(i, j)[1]] for i in range(n) for j in range(n)]
+            piv = []
+            La = cholesky_terms(ctx, Ms_, n, piv)
+            info = ctx.fresh('chol_info', 'int')
+            ctx.axioms += [(info == 0) == z3.And([a_ > 0 for a_ in piv])]
+            Lterms += ([La[j * n + i] for i in range(n) for j in range(n)] if upper else La)
+            infos.append(info)
+            continue
         L = _sym_lower(ctx, n, 'chol')
         info = ctx.fresh('chol_info', 'int')
         LLt = [z3.Sum([L[i][k] * L[j][k] for k in range(n)]) for i in range(n) for j in range(n)]
@@ -1728,18 +1747,26 @@ def _cholesky_alg(m, func, args, kwargs):
     A = args[0]
     upper = kwargs.get('upper', args[1] if len(args) > 1 else False)
     n = A.shape[-1]
-    if n > 3:
-        raise Unsupported('cholesky n>3')
+    if n > 4:
+        raise Unsupported('cholesky n>4')
     out = func(*args, **kwargs)
     ft = [to_real(t) for t in m.full_terms(A)]
     nb = A.numel() // (n * n)
     res = []
+    pois = []
+    inp_p = m.poisons(A) if m.ctx.track_poison else None
     for b in range(nb):
-        L = cholesky_terms(m.ctx, ft[b * n * n:(b + 1) * n * n], n)
+        piv = []
+        L = cholesky_terms(m.ctx, ft[b * n * n:(b + 1) * n * n], n, piv)
+        if m.ctx.track_poison:
+            # not positive definite (a non-positive pivot: torch raises / LAPACK returns garbage) poisons the whole factor
+            bad = [simp(a_ <= 0) for a_ in piv]
+            bad += [p_ for p_ in inp_p[b * n * n:(b + 1) * n * n] if p_ is not None]
+            pois += [simp(z3.Or(bad))] * (n * n)
         if upper:
             L = [L[j * n + i] for i in range(n) for j in range(n)]
         res += L
-    m.write(out, res)
+    m.write(out, res, pois if m.ctx.track_poison else None)
     m.ctx.stubs.add('linalg.cholesky: by the Cholesky-Banachiewicz algorithm over reals (input assumed PD)')
     return out
 
